@@ -343,6 +343,52 @@ ALPHABET = [
 ]
 
 
+ALPHABET_EXTRA = [
+    ('luiL', lambda p, L: p.insn('lui', 6, ('hi', ('label', L)))),
+    ('addiLo', lambda p, L: p.insn('addi', 6, 6, ('lo', ('label', L)))),
+    ('auipcOff', lambda p, L: p.insn('auipc', 7, ('hi', ('offset', L)))),
+    ('dwPos', lambda p, L: p.data('dw', ('position', L, 0x08000000))),
+    ('ddL', lambda p, L: p.data('dd', ('label', L))),
+    ('packOff', lambda p, L: p.pack('<i', ('offset', L))),
+    ('jalx5', lambda p, L: p.jal(5, L)),
+    ('jalx1', lambda p, L: p.jal(1, L)),
+    ('bgtu', lambda p, L: p.pbranch('bgtu', L, 12, 13)),
+    ('bnezc', lambda p, L: p.pbranch('bnez', L, 9)),
+    ('beqc', lambda p, L: p.branch('beq', 15, 0, L)),
+    ('liNeg', lambda p, L: p.li(10, -2049)),
+    ('liBig', lambda p, L: p.li(2, 0xfffff800)),
+    ('liPos', lambda p, L: p.li(11, ('position', L, 0x20000000))),
+    ('caddi', lambda p, L: p.cinsn('c.addi', 8, -3)),
+    ('clwsp', lambda p, L: p.cinsn('c.lwsp', 5, 8)),
+    ('cmv', lambda p, L: p.cinsn('c.mv', 10, 11)),
+    ('b2', lambda p, L: p.data('bytes', 9, 8)),
+    ('sh1', lambda p, L: p.data('shorts', -2)),
+    ('al2', lambda p, L: p.align(2)),
+    ('al5', lambda p, L: p.align(5)),
+    ('al16', lambda p, L: p.align(16)),
+    ('neg', lambda p, L: p.pseudo('neg', 8, 9)),
+    ('slli', lambda p, L: p.insn('slli', 9, 9, 3)),
+    ('and', lambda p, L: p.insn('and', 8, 8, 9)),
+    ('swsp', lambda p, L: p.insn('sw', 2, 8, 12)),
+    ('lui1', lambda p, L: p.insn('lui', 9, 1)),
+    ('str7', lambda p, L: p.string('seven77')),
+]
+
+
+def random_programs(n, rnd, lo=3, hi=12):
+    """seeded random programs over the full alphabet, a label at every gap, each label-using item picks a random label"""
+    alpha = ALPHABET + ALPHABET_EXTRA
+    for t in range(n):
+        k = rnd.randint(lo, hi)
+        seq = [rnd.randrange(len(alpha)) for _ in range(k)]
+        p = Prog('rand:%d:%s' % (t, '-'.join(alpha[i][0] for i in seq)))
+        for j, i in enumerate(seq):
+            p.label('L%d' % j)
+            alpha[i][1](p, 'L%d' % rnd.randint(0, k))
+        p.label('L%d' % k)
+        yield p
+
+
 def mixed_programs(k, alphabet=None, limit=None, rnd=None):
     """every sequence of k items over the alphabet (or a seeded sample of `limit`), a label at every gap,
     items referring to labels pick every label in turn by position"""
